@@ -307,11 +307,14 @@ def check_input_case(recs):
     fails = []
     ok = impl_check_gtf(recs)["ok"]
     ids = [(r[1] == "gene", r[2] if r[1] == "gene" else r[3]) for r in recs if r[1] != "exon"]
-    if {r[2] for r in recs} & {r[3] for r in recs} or any(r[1] == "mRNA" for r in recs):
-        return fails        # docs/C17.md F8; mRNA-typed GTF records: audit2-C GAP-1 (C12)
+    if any(r[1] == "mRNA" for r in recs):
+        return fails        # mRNA-typed GTF records: audit2-C GAP-1 (C12)
+    # docs/C17.md F8 (known finding `id_used_as_gene_and_transcript`): one string as gene_id of one line and transcript_id of another
+    # is one key in gffutils; such inputs are judged like any other, the failure carries the kind of the finding's class
+    KIND = "id_used_as_gene_and_transcript" if {r[2] for r in recs} & {r[3] for r in recs} else "input_check_accepts_inconsistent_annotation"
     if len(ids) != len(set(ids)):
         if ok:
-            fails.append(("input_check_accepts_inconsistent_annotation", "a repeated gene / transcript record is accepted: %s" % recs))
+            fails.append((KIND, "a repeated gene / transcript record is accepted: %s" % recs))
         return fails
     try:
         ans, _, prob = impl_db_of(recs, G.IN_SEQS)
@@ -319,13 +322,13 @@ def check_input_case(recs):
         return fails
     split = [r for r in prob["relations"] if r[1] != r[3]]
     if ok and split:
-        fails.append(("input_check_accepts_inconsistent_annotation",
+        fails.append((KIND,
                       "check_gtf_duplicates accepts, but %s (%s) is a child of %s (%s)" % (split[0][2], split[0][3], split[0][0], split[0][1])))
     if ans["accepted"]:
         loc = dict((c, set(l)) for c, l in ans["located"])
         for c, l in ans["printed"]:
             if not set(l) <= loc[c]:
-                fails.append(("input_check_accepts_inconsistent_annotation",
+                fails.append((KIND,
                               "check_db_sequences accepts, but %s prints %s, located elsewhere" % (c, sorted(set(l) - loc[c]))))
                 break
     return fails
@@ -1246,6 +1249,8 @@ def oracle(ctx, disagreements, broken):
         run({"level": "input", "recs": G.rand_gtf_records(rng)})
         if len(ctx.failures) > 20:
             break
+    # the witness of known finding id_used_as_gene_and_transcript (F8), replayed on the real check on every run
+    run({"level": "input", "recs": [["c", "exon", "G1.1", "T1"]] * 3 + [["chr1.1", "exon", "T1", "T2"]] * 2})
     # 3. the real pipeline
     for seed in scenario_seeds(ctx):
         run({"level": "pipeline", "seed": seed})
